@@ -19,7 +19,8 @@ CHECKS = {
              "surrounded by same-length decoys differing in one byte at stage-threshold offsets, across 7 hash "
              "functions, cache cold/warm, pinned SSD/HDD/unknown disk kind, prefix/suffix sizes, transforms that "
              "shrink/keep/expand, thread pools, ext4 and tmpfs, and (8% of the trees) two tmpfs file systems mounted for the case "
-             "whose files share inode numbers. Exploration is the right level: the property "
+             "whose files share inode numbers; a quarter of the runs take their (overlapping, repeated, re-spelled) input paths from "
+             "--stdin; 6% pin SSD with prefix and suffix as long as whole files. Exploration is the right level: the property "
              "quantifies over inputs x configurations and the oracle is exact on each execution.",
         note=COMMON_NOTE + "Hash collisions would be reported as violations. Files are <= 300 KB (the 64 MiB HDD suffix "
              "threshold is reached through the SSD pin).",
@@ -41,7 +42,8 @@ CHECKS = {
              "generated trees with hard-link sets, -S symlinks, --isolate roots, shell-hostile and non-UTF-8 names "
              "(incl. names with leading/trailing white space next to same-length decoys named like the trimmed name), "
              "text and JSON reports and random dedupe options, move targets that already hold entries, root names that are string "
-             "prefixes of each other, the dedupe command run from another working directory. A model-free oracle compares full inventories: no "
+             "prefixes of each other, the dedupe command run from another working directory and under a varying ambient environment (colour conventions, "
+             "locale, a PWD that is not the working directory), names at the 255-byte limit. A model-free oracle compares full inventories: no "
              "content digest disappears from regular files, at least max(1,n) replicas of every group are byte-, "
              "inode- and mtime-identical, nothing outside the reported groups changes, linked/cloned paths read back "
              "their bytes, moved bytes exist under DIR. `dedupe` is exercised natively (EOPNOTSUPP: nothing may change) "
@@ -96,7 +98,9 @@ CHECKS = {
              "are written and read back with open_report/read_header/read_groups and compared field by field (paths as "
              "bytes, timestamp at ms, lengths and sizes up to u64::MAX). Every byte-prefix of small multi-group reports must be rejected or yield only "
              "unaltered leading groups. At CLI level real `group` reports over hostile names (full and cut at random points) "
-             "are piped into `remove --dry-run` and the paths bash decodes from the script must be listed in the report.",
+             "are piped into `remove --dry-run` and the paths bash decodes from the script must be listed in the report; every "
+             "full report is also delivered in two pieces with a pause (same script, same verdict), under a varying ambient "
+             "environment.",
         note=COMMON_NOTE + "Paths are compared after fclones' own Path normalisation. The bounded part is exhaustive.",
         design="4/C10"),
     "C19": dict(
@@ -112,7 +116,7 @@ CHECKS = {
              "scenario is measured. A native release build runs the same monitors with 2..64 threads under a watchdog with a "
              "quiescence test. In situ: `group` under a low RLIMIT_NOFILE with far more hashing threads than descriptors (and "
              "zero-sized = auto pools) must finish, never hit EMFILE, and keep the number of simultaneously open tree files "
-             "(interposer log) within the permits.",
+             "(interposer log) within the permits. Scenarios with a permit held for more than a second of (virtual) time.",
         note="Exploration of interleavings, not exhaustion: a seeded sample under Miri's scheduler (quick 8 seeds x 3 rates x 54 "
              "scenarios; thorough 96 seeds x 216 scenarios). Trusted base: Miri's model of std Mutex/Condvar; hook H4 only "
              "adds notify_all/count accessors.",
@@ -121,7 +125,7 @@ CHECKS = {
         category="exploration",
         technique="runtime monitoring: before/after inventory equality + LD_PRELOAD syscall log with zero mutating calls on the tree",
         text="`fclones group` runs in every transform I/O mode (stdin->stdout, $IN, $IN+$OUT, --in-place, --in-place --no-copy "
-             "and --no-copy with helper programs that only read, ignore or fail; a program that leaves FILE.bak next to its input), with --cache, -o, all formats and pinned disk "
+             "and --no-copy with helper programs that only read, ignore or fail; a program that leaves FILE.bak next to its input; $TMPDIR unusable), with --cache, -o, all formats and pinned disk "
              "kinds, and every dedupe operation runs with --dry-run and random options, on generated trees (hard links, "
              "symlinks, hostile names, ext4 and tmpfs). Oracle 1: the full inventory (paths, bytes, link structure, inode, mode, "
              "mtime_ns) is identical before and after, $TMPDIR is empty afterwards, the cache dir holds only fclones/. "
@@ -139,7 +143,8 @@ CHECKS = {
              "(N files, bytes) must be equal; for remove / link / link --soft the tree restored from a cp -a backup and "
              "processed by `bash script` must equal the tree left by the real run (paths, types, bytes, link targets, hard-link "
              "partition, no temp leftovers); the script must be identical modulo temp names under RAYON_NUM_THREADS 1/2/16 "
-             "with hook jitter at the script generation.",
+             "with hook jitter at the script generation. 15% of the reports come from a transform over files of different sizes, the "
+             "ambient environment varies.",
         note=COMMON_NOTE + "bash 5 is the decoder/executor. `move` and `dedupe` scripts are compared with the real run but not executed "
              "(the property only requires execution equivalence for remove and link). FICLONE is emulated for `dedupe`.",
         design="4/C11"),
@@ -167,7 +172,8 @@ CHECKS = {
         technique="runtime monitoring: move model + before/after inventories + syscall trace monitor + injected rename/copy/mkdir/unlink faults",
         text="Real `group | move DIR` pipelines with DIR outside/inside the scanned tree, on the same file system or on tmpfs "
              "(EXDEV, copy fallback), absolute or relative, pre-populated at mapped target paths with files, directories, "
-             "symlinks (also dangling) and non-directories at parent positions, optionally with one injected fault. Every "
+             "symlinks (also dangling) and non-directories at parent positions, optionally with one injected fault, with a PWD "
+             "variable that does not name the working directory. Every "
              "source the model selects must end up at DIR/<absolute source path> with identical bytes or stay in place with a "
              "warning; every entry that existed under DIR (or behind its symlinks) is unchanged; in the trace, unlink(source) of "
              "a copied file follows the last write to and the close of its target.",
@@ -176,7 +182,8 @@ CHECKS = {
     "C20": dict(
         category="exploration",
         technique="runtime monitoring: a foreign process holds fcntl locks; inventory + syscall log + drop model",
-        text="A helper process holds POSIX write or read locks (whole file, first byte, a record inside the file or past its end) on chosen droppable members (controls: locks on retained "
+        text="A helper process holds POSIX write or read locks (whole file, first byte, a record inside the file or past its end; in a quarter of the cases fclones' own open-for-write "
+             "of the locked file is refused) on chosen droppable members (controls: locks on retained "
              "members, locks released before the run); every operation runs with and without --no-lock on the real report. "
              "Locked inodes' paths must be untouched and reported ('Failed to lock'), all other droppable files processed "
              "exactly as the reference model says, the processed count must exclude the locked ones; with --no-lock they are "
@@ -191,12 +198,14 @@ CHECKS = {
              "scenario tree (hard-link sets, classes that leave at the prefix, suffix and content stage, nested directories); "
              "then one run per (entry, call position, errno in EACCES/EIO/ENOENT) fails exactly that call, under six "
              "configurations (disk kind pinned ssd/hdd/unknown, ext4/tmpfs, thread pools, the tree given as one root or as a list "
-             "of files and directories on --stdin, whose own stat faults are included); thorough adds pairs of faults on two "
+             "of files and directories on --stdin, whose own stat faults are included; --unique; --skip-content-hash; --no-copy "
+             "transforms whose child process meets the fault); thorough adds pairs of faults on two "
              "files and more scenarios. The run must exit 0 with a complete report equal to the reference partition of the tree "
              "without the entry (subtree for a directory; entries after a failed readdir are don't-care; a failed extent query "
              "changes nothing, nor does a failed stat whose result was not needed: the report then equals the fault-free one) and a "
              "warning must name the entry unless it vanished (ENOENT).",
-        note="Faults are at libc call granularity. Cases whose fault did not fire (the call sequence varies with the schedule for "
+        note="Faults are at libc call granularity. A run that does not end is a violation only if the quiescence test shows the process "
+             "and its live descendants asleep without progress.  Cases whose fault did not fire (the call sequence varies with the schedule for "
              "hard-linked files) are inconclusive and reported as such. Trusted base as for C03.",
         design="4/C15"),
     "C06": dict(
@@ -235,7 +244,8 @@ CHECKS = {
              "transform in all four formats and with -o; independent parsers check that header/JSON statistics equal the values "
              "recomputed from the body (documented definitions of redundant/missing), each group header count equals its path "
              "lines, groups are in non-increasing size, paths are absolute, --isolate keeps the paths of one root contiguous and "
-             "roots in the given order, text/JSON/CSV/fdupes list the same groups, -o equals stdout, and the body does not change "
+             "roots in the given order (also with an input path that is a symlink to a file, below no root), text/JSON/CSV/fdupes "
+             "list the same groups under a varying ambient environment (CLICOLOR_FORCE etc.), -o equals stdout, and the body does not change "
              "with thread settings, root order (without --isolate) or file creation order.",
         note=COMMON_NOTE,
         design="4/C14"),
@@ -247,7 +257,7 @@ CHECKS = {
              "but before the report is written, or after `group` exited. Ten edit kinds (same/different-length rewrite, append, "
              "truncate, delete, delete+recreate, replace by directory / dangling symlink / symlink to a fresh file, touch) on "
              "1..all members of a group, then each of the five operations on the text or JSON report, in time zones east and west "
-             "of UTC, with the length comparison on or off (--transform report, --no-check-size). The inventory taken just "
+             "of UTC, with the length comparison on or off (--transform report, --no-check-size), a fifth of them over two --isolate roots. The inventory taken just "
              "before the dedupe command is compared with the one after: no content held by a regular file may disappear and "
              "after link / link --soft / dedupe every regular file reads back the same bytes.",
         note=COMMON_NOTE + "Outside the guarantee and never generated: mtime-preserving replacement, and edits closer than one kernel "
@@ -258,14 +268,15 @@ CHECKS = {
         category="exploration",
         technique="runtime monitoring: real `group --rf-over 0` listings vs a three-valued reference walk",
         text="Generated trees (nesting 0..6, hidden entries, .gitignore/.fdignore, relative/absolute/dangling/cyclic/cross-device "
-             "symlinks, links named like directories-only ignore rules, directory names with regex metacharacters, spaces and non-ASCII text) are scanned with random "
+             "symlinks (absolute targets also in non-canonical spelling), links named like directories-only ignore rules, directory names with regex metacharacters, spaces and non-ASCII text) are scanned with random "
              "combinations of --depth, --hidden, --no-ignore, -L, -S, --min/--max, --name/--path/--exclude (globs or a regex "
              "subset, absolute or cwd-relative, --ignore-case), --one-fs, overlapping/repeated roots and unusual working "
              "directories. The listed paths must contain every 'must' path of an independent reference walk and nothing outside "
              "must + don't-care, with no duplicates.",
         note=COMMON_NOTE + "Don't-care only where the documentation is silent: an explicitly given hidden root, the contents of a "
              "directory (or the target of a link) whose own path is excluded, and files whose listing under -L depends on which "
-             "of several overlapping roots reaches a shared directory first. Known finding D6 is listed in known_findings.json.",
+             "of several overlapping roots reaches a shared directory first (decided by running the reference under depth-first "
+             "orders and 40 random schedules of a work list). Known finding D6 is listed in known_findings.json.",
         design="4/C09"),
     "C12": dict(
         category="exploration",
